@@ -441,8 +441,52 @@ def _check_slow_write(case, obs, tally):
     return out
 
 
+def _gen_failed_then_idle(rng, tier):
+    """HTTP/2: an application fails with part of its body still buffered while the client is (for a moment) not reading - the RST_STREAM
+    has to wait to be written.  The client reads on and then says nothing more: the stream is over, the connection is idle from there on
+    and is closed keep_alive_timeout later."""
+    for i in range(12 if tier == "quick" else 200):
+        T = rng.choice([1, 5])
+        tag = 4600000 + i
+        fb = FrameBuilder()
+        kind = rng.choice(["raise", "return"])
+        by_tag = {str(tag): [["recv_until_end"], ["wait", "go"], ["send", {"type": "http.response.start", "status": 200, "headers": []}],
+                             ["send", {"type": "http.response.body", "body": b"z" * rng.choice([10, 3000]), "more_body": True}],
+                             ["raise", "Exception"] if kind == "raise" else ["return"]]}
+        blob = client_preface(fb, {}) + fb.headers(1, [(b":method", b"GET"), (b":scheme", b"http"), (b":path", b"/t%d" % tag), (b":authority", b"h.example")], end_stream=True)
+        paused = rng.random() < 0.7
+        client = [["feed", blob], ["settle"]] + ([["pause"]] if paused else []) + [["trigger", "go"], ["settle"]] + ([["mark", "resume"], ["resume"], ["settle"]] if paused else [["mark", "resume"]]) + \
+                 [["advance", 3.5 * T], ["settle"]]
+        yield {"family": "h2.failed-then-idle." + kind, "backends": ["asyncio", "trio"], "config": {"keep_alive_timeout": T},
+               "conn": {"write_buffer": rng.choice([16, 64])} if paused else {},
+               "apps": {"default": _app_delay(0, 0), "by_tag": by_tag}, "client": client, "reactor": {"kind": "h2", "credit": "auto"},
+               "truth": {"T": T, "marks": [], "fault": None, "h2": True, "failed_then_idle": True, "tag": tag},
+               "sched": {"seed": rng.randrange(1 << 30)}, "horizon": 400.0}
+
+
+def _check_failed_then_idle(case, obs, tally):
+    t = case["truth"]
+    tally.clause("deadline")
+    if obs.handler == "exception":
+        tally.inconclusive["handler-crashed(C04)"] += 1
+        return []
+    t_resume = obs.marks.get("resume", {}).get("t")
+    s = obs.reactor.streams.get(1)
+    if s is None or (s.rst is None and not s.ended) or t_resume is None:
+        tally.inconclusive["failed-stream-not-terminated(C05)"] += 1
+        return []
+    # the last thing that happened on the connection: the client read on / the stream was reset
+    last = max(t_resume, s.end_t or 0.0)
+    if obs.closed_at is None or obs.closed_at > last + t["T"] + EPS:
+        return [{"clause": "deadline", "sig": "C07.idle-not-closed/h2/after-failed-stream",
+                 "detail": "the only stream of the connection was reset at %r (its application failed; the client read on at %r) and nothing followed: "
+                           "closed_at %r, expected by %r (keep_alive_timeout %s)" % (s.end_t, t_resume, obs.closed_at, last + t["T"], t["T"])}]
+    return []
+
+
 def gen(rng, tier):
     yield from _gen_nonreading(rng, tier)
+    yield from _gen_failed_then_idle(rng, tier)
     yield from _gen_slow_write(rng, tier)
     for rep in range(2 if tier == "quick" else 10):
         for be in ("asyncio", "trio"):
@@ -521,6 +565,8 @@ def check(case, obs, tally):
         return _check_nonreading(case, obs, tally)
     if case["truth"].get("slow_write"):
         return _check_slow_write(case, obs, tally)
+    if case["truth"].get("failed_then_idle"):
+        return _check_failed_then_idle(case, obs, tally)
     out = []
     tr = case["truth"]
     T = tr["T"]
